@@ -75,10 +75,6 @@ pub fn response(x: &Array2<f64>, seed: u64, noise: f64) -> Array1<f64> {
     })
 }
 
-pub fn seq(seed: u64) -> SplitMix {
-    SplitMix(seed)
-}
-
 /// Labels with pairwise distinct class sizes (so class priors are pairwise different), blocks along
 /// the order of the first feature. `classes` is reduced until `1+2+..+classes <= n`.
 pub fn labels_distinct_sizes(x: &Array2<f64>, seed: u64, classes: usize) -> Array1<usize> {
